@@ -7,7 +7,7 @@ import numpy as np
 
 LEVEL = "exploration"
 EXHAUSTIVE = {"quick": False, "thorough": True}
-RULE = ("enumerated grid. UNet: max_stride{8,16,32} x stem_stride{None,2,4} x filters_rate{1.5,2} x convs_per_block{1,2,3} x up_interpolate x middle_block x head "
+RULE = ("enumerated grid. UNet: max_stride{8,16,32} x stem_stride{None,2,4} x filters_rate{1.5,2} (filters 4; plus filters {5,6,7,10,11} at rate 1.5) x convs_per_block{1,2,3} x up_interpolate x middle_block x head "
         "{single, centroid, centered (stride 1,2,4,8), bottom-up (cms,paf) in {(2,4),(4,8),(2,2),(1,2),(4,2),(8,8)}} x input sizes k*max_stride (non-square); ConvNeXt "
         "(custom small arch and the real tiny preset) and Swin-T (tiny preset): stem_patch_stride{2,4} x head strides x up_interpolate x convs_per_block. Each configuration "
         "first goes through the repository's own normaliser TrainingJobConfig.check_output_strides (the validity cross-constraints). quick = a seeded slice of the grid, "
@@ -33,6 +33,14 @@ def unet_grid():
                 continue
             yield {"family": "unet", "max_stride": ms, "stem_stride": stem, "filters_rate": fr, "convs_per_block": cpb, "up_interpolate": upi, "middle_block": mid,
                    "head": h, "strides": list(st), "filters": 4, "in_channels": 1}
+    # filter counts whose widths are truncated differently block by block under a fractional rate (int(f * 1.5**k) vs chained rounding)
+    for ms, stem, upi, f in itertools.product([8, 16, 32], [None, 2], [True, False], [5, 6, 7, 10, 11]):
+        heads = [(h, (s,)) for h in ("centroid", "single_instance") for s in (1, 2, 4, 8)] + [("bottomup", st) for st in BU_STRIDES]
+        for h, st in heads:
+            if max(st) >= ms:
+                continue
+            yield {"family": "unet", "max_stride": ms, "stem_stride": stem, "filters_rate": 1.5, "convs_per_block": 2, "up_interpolate": upi, "middle_block": True,
+                   "head": h, "strides": list(st), "filters": f, "in_channels": 1}
 
 
 def enc_grid():
@@ -48,7 +56,12 @@ def enc_grid():
 
 
 def all_configs():
-    return list(unet_grid()) + list(enc_grid())
+    out = []
+    for c in list(unet_grid()) + list(enc_grid()):
+        out.append(c)
+        if c["head"] == "bottomup" and c["strides"][0] != c["strides"][1] and (c["family"] != "unet" or (c["convs_per_block"] == 2 and c["middle_block"])):
+            out.append(dict(c, pafs_first=True))
+    return out
 
 
 def cases(ctx):
@@ -98,6 +111,8 @@ def make_config(case):
     if h == "bottomup":
         head = {"confmaps": {"part_names": parts, "sigma": 2.0, "output_stride": case["strides"][0], "loss_weight": 1.0},
                 "pafs": {"edges": [["a", "b"], ["b", "c"]], "sigma": 4.0, "output_stride": case["strides"][1], "loss_weight": 1.0}}
+        if case.get("pafs_first"):  # the mapping may list its two heads in either order (YAML files written by hand do)
+            head = {"pafs": head["pafs"], "confmaps": head["confmaps"]}
     elif h == "centroid":
         head = {"confmaps": {"anchor_part": None, "sigma": 2.0, "output_stride": case["strides"][0]}}
     elif h == "centered_instance":
@@ -133,6 +148,8 @@ def classify(case, exc):
         return "unet-middle_block-false-channel-mismatch"
     if case["family"] == "unet" and case["convs_per_block"] == 1:
         return "unet-convs_per_block-1-channel-mismatch"
+    if case["family"] == "unet" and case["filters_rate"] != int(case["filters_rate"]):
+        return "fractional-filters-rate-head-width-mismatch"
     if case["family"] in ("convnext", "swint") and max(case["strides"]) > case["stem_patch_stride"]:
         return "encoder-backbone-head-stride-above-stem-stride"
     return None
@@ -150,8 +167,8 @@ def check(ctx, case):
     ms = int(bb_cfg.max_stride)
     small = dict(case)
     small["normalised_backbone"] = {"max_stride": ms, "output_stride": int(bb_cfg.output_stride)}
-    nt_sig = (fam, case.get("model_type"), ms, case.get("stem_stride", case.get("stem_patch_stride")), case["filters_rate"], case["convs_per_block"], case["up_interpolate"],
-              case.get("middle_block"), h, tuple(case["strides"]))
+    nt_sig = (fam, case.get("model_type"), ms, case.get("stem_stride", case.get("stem_patch_stride")), case["filters_rate"], case.get("filters"), case["convs_per_block"], case["up_interpolate"],
+              case.get("middle_block"), h, tuple(case["strides"]), bool(case.get("pafs_first")))
     interesting = (len(set(case["strides"])) > 1) or case.get("stem_stride") or fam != "unet" or case["strides"][0] != int(bb_cfg.output_stride)
     sizes = [(ms * 2, ms * 3), (ms * 1, ms * 2), (ms * 3, ms * 1)]
     try:
